@@ -222,7 +222,37 @@ def m_opt_map(ex, p, call, k):
                     r.pc.append(z3.Not(b))
                     k(r, NONE)
             return _closure_apply(ex, q, f, [Ptr(cell)], call, after)
+        if meth in ('is_some_and', 'is_ok_and'):
+            if good:
+                return _closure_apply(ex, q, f, pay, call, k)
+            return k(q, z3.BoolVal(False))
+        if meth == 'is_none_or':
+            if good:
+                return _closure_apply(ex, q, f, pay, call, k)
+            return k(q, z3.BoolVal(True))
+        if meth == 'is_err_and':
+            if good:
+                return k(q, z3.BoolVal(False))
+            return _closure_apply(ex, q, f, pay, call, k)
         raise Unmodelled(meth)
+    if is_res:
+        split_enum(ex, p, v, 'Result', RESULT, on, res_payload_ty(v))
+    else:
+        split_enum(ex, p, v, 'Option', OPTION, on, opt_payload_ty(v))
+
+
+def m_map_or(ex, p, call, k):
+    """Option/Result::map_or(default, f) / map_or_else(default_fn, f)"""
+    meth = call.short.rsplit('::', 1)[-1]
+    v, d, f = call.args[0], call.args[1], call.args[2]
+    is_res = 'Result' in call.short
+
+    def on(q, name, pay):
+        if name in ('Some', 'Ok'):
+            return _closure_apply(ex, q, f, pay, call, k)
+        if meth == 'map_or':
+            return k(q, d)
+        return _closure_apply(ex, q, d, pay if is_res else [], call, k)
     if is_res:
         split_enum(ex, p, v, 'Result', RESULT, on, res_payload_ty(v))
     else:
@@ -376,6 +406,35 @@ def poll_ready_ty(retty):
     return generic_arg(retty, 0)
 
 
+def m_read_exact(ex, p, call, k):
+    """AsyncReadExt::read_exact(reader, buf): the future remembers the buffer; its completion fills it (m_poll)"""
+    n = p.seq('read_exact')
+    k(p, Sym(f'read_exact#{n}', 'ReadExact').with_ov('rx_buf', call.args[1]).with_ov('rx_reader', call.args[0]))
+
+
+def _poll_read_exact(ex, p, call, k, fut):
+    """Ready(Ok(n)) with every byte of the buffer replaced by a fresh symbolic byte | Ready(Err) | Pending"""
+    buf = fut.get_ov('rx_buf')
+    tgt = buf
+    while isinstance(tgt, Ptr) and isinstance(ex.read_loc(p, None, tgt.key, tgt.projs), Ptr):
+        tgt = ex.read_loc(p, None, tgt.key, tgt.projs)
+    cur = as_array(ex, p, tgt) if isinstance(tgt, Ptr) else None
+    if cur is None:
+        return False
+    n = len(cur.fields)
+    q, r = p.clone(), p.clone()
+    ex.store(p, tgt, Agg('[]', None, [z3.BitVec(f'{fut.name}.b{i}', 8) for i in range(n)], 'array'))
+    p.events.append(Event('poll', call.short, (fut,), Agg('Poll', 'Ready', (ok(z3.BitVecVal(n, 64)),)), call.span, call.depth))
+    k(p, Agg('Poll', 'Ready', (ok(z3.BitVecVal(n, 64)),)))
+    e = ex.fresh(f'poll({fut.name})@Err.0', 'std::io::Error')
+    q.events.append(Event('poll', call.short, (fut,), Agg('Poll', 'Ready', (err(e),)), call.span, call.depth))
+    k(q, Agg('Poll', 'Ready', (err(e),)))
+    if getattr(ex, 'explore_pending', True):
+        r.events.append(Event('poll', call.short, (fut,), Agg('Poll', 'Pending', ()), call.span, call.depth))
+        k(r, Agg('Poll', 'Pending', ()))
+    return True
+
+
 def m_poll(ex, p, call, k):
     """<F as Future>::poll: crate-local coroutines are executed; any other future is a fresh
     symbolic Poll<T> (the schedule is a symbolic variable): Ready(value) | Pending."""
@@ -384,6 +443,8 @@ def m_poll(ex, p, call, k):
     if isinstance(fut, Agg) and fut.fields and isinstance(fut.fields[0], Ptr):
         pin = fut.fields[0]
         fut = ex.deref(p, pin)
+    if isinstance(fut, Sym) and fut.get_ov('rx_buf') is not None and _poll_read_exact(ex, p, call, k, fut):
+        return
     f = ex.closure_fn(fut) if isinstance(fut, Sym) else None
     if f is not None and call.depth < ex.max_depth and getattr(ex, 'inline_coroutines', True):
         p.events.append(Event('enter', 'poll:' + f.name, (fut,), None, call.span, call.depth))
@@ -592,7 +653,8 @@ GLOBAL_MODELS = [
     (R(r'(Option|Result)::(is_some|is_none|is_ok|is_err)$'), m_opt_is),
     (R(r'(Option|Result)::(unwrap|expect)$'), m_unwrap),
     (R(r'(Option|Result)::unwrap_or$'), m_unwrap_or),
-    (R(r'(Option|Result)::(map|map_err|and_then|unwrap_or_else|ok_or_else|or_else|filter)$'), m_opt_map),
+    (R(r'(Option|Result)::(map|map_err|and_then|unwrap_or_else|ok_or_else|or_else|filter|is_some_and|is_ok_and|is_none_or|is_err_and)$'), m_opt_map),
+    (R(r'(Option|Result)::(map_or|map_or_else)$'), m_map_or),
     (R(r'Option::ok_or$'), m_ok_or),
     (R(r'Result::ok$'), m_res_ok),
     (R(r'Result::err$'), m_res_err),
@@ -605,6 +667,7 @@ GLOBAL_MODELS = [
     (R(r' as IntoFuture>::into_future$'), m_identity),
     (R(r'Pin::new(_unchecked)?$|Pin::(as_mut|get_mut|get_unchecked_mut|into_inner|get_ref)$|convert::identity$|^identity$'), m_identity),
     (R(r' as Future>::poll$'), m_poll),
+    (R(r'AsyncReadExt>::read_exact$'), m_read_exact),
     (R(r' as Deref(Mut)?>::deref(_mut)?$'), m_deref),
     (R(r'mem::replace$'), m_mem_replace),
     (R(r'mem::take$'), m_mem_take),
@@ -834,5 +897,89 @@ def m_range_into_iter(ex, p, call, k):
     return NotImplemented
 
 
+# ----------------------------------------------------------------------------- iterators over arrays/slices of known length
+def m_slice_iter(ex, p, call, k):
+    """<[T]>::iter(&arr) for an array whose elements are known values: a finite iterator value"""
+    arr = as_array(ex, p, call.args[0])
+    if arr is None or len(arr.fields) > 64:
+        return NotImplemented
+    k(p, Agg('SliceIter', None, (arr, z3.BitVecVal(0, 64), z3.BoolVal(False)), 'struct'))
+
+
+def m_iter_copied(ex, p, call, k):
+    it = call.args[0]
+    if isinstance(it, Agg) and it.name == 'SliceIter':
+        return k(p, Agg('SliceIter', None, (it.fields[0], it.fields[1], z3.BoolVal(True)), 'struct'))
+    return NotImplemented
+
+
+def _slice_iter_of(ex, p, v):
+    it = ex.deref(p, v) if isinstance(v, Ptr) else v
+    if isinstance(it, Agg) and it.name == 'SliceIter' and conc(it.fields[1]) is not None:
+        return it
+    return None
+
+
+def _elem_ref(ex, p, val):
+    cell = ('H', f'elem{p.seq("elem")}', '')
+    p.mem[cell] = val
+    return Ptr(cell, (), False)
+
+
+def m_slice_iter_next(ex, p, call, k):
+    it = _slice_iter_of(ex, p, call.args[0])
+    if it is None:
+        return NotImplemented
+    arr, i, copied = it.fields[0], conc(it.fields[1]), z3.is_true(it.fields[2])
+    if i >= len(arr.fields):
+        return k(p, NONE)
+    if isinstance(call.args[0], Ptr):
+        ex.store(p, call.args[0], Agg('SliceIter', None, (arr, z3.BitVecVal(i + 1, 64), it.fields[2]), 'struct'))
+    v = arr.fields[i]
+    k(p, some(v if copied else _elem_ref(ex, p, v)))
+
+
+def m_iter_search(ex, p, call, k):
+    """find / any / all / position over a finite iterator: the predicate closure is executed on the elements in order"""
+    it = _slice_iter_of(ex, p, call.args[0])
+    if it is None:
+        return NotImplemented
+    arr, start, copied = it.fields[0], conc(it.fields[1]), z3.is_true(it.fields[2])
+    op = call.short.rsplit('::', 1)[-1]
+    clo = call.args[1]
+    elems = list(arr.fields[start:])
+
+    def step(q, j):
+        if j >= len(elems):
+            return k(q, {'find': NONE, 'position': NONE, 'any': z3.BoolVal(False), 'all': z3.BoolVal(True)}[op])
+        v = elems[j]
+        item = v if copied else _elem_ref(ex, q, v)
+        arg = _elem_ref(ex, q, item) if op == 'find' else item      # find's predicate takes &Item
+
+        def got(q2, r):
+            if isinstance(r, z3.ExprRef) and z3.is_bool(r):
+                c = r
+            elif isinstance(r, z3.ExprRef):
+                c = r != z3.BitVecVal(0, r.size())
+            else:
+                c = ex.to_bv(r, 8) != z3.BitVecVal(0, 8)
+            hit = c if op != 'all' else z3.Not(c)
+            q3 = q2.clone()
+            if ex.feasible(q2.pc, hit):
+                if not z3.is_true(z3.simplify(hit)):
+                    q2.pc.append(hit)
+                k(q2, {'find': some(item), 'position': some(z3.BitVecVal(j, 64)), 'any': z3.BoolVal(True), 'all': z3.BoolVal(False)}[op])
+            if ex.feasible(q3.pc, z3.Not(hit)):
+                if not z3.is_false(z3.simplify(hit)):
+                    q3.pc.append(z3.Not(hit))
+                step(q3, j + 1)
+        ex.call_closure(q, clo, [arg], call, got)
+    step(p, 0)
+
+
 GLOBAL_MODELS = [(R(r'<(std::ops::|core::ops::)?Range as Iterator>::next$'), m_range_next),
+                 (R(r'(^|::)slice::(<impl[^>]*>::)?iter$'), m_slice_iter),
+                 (R(r'<(std::slice::|core::slice::)?Iter as Iterator>::(copied|cloned)$'), m_iter_copied),
+                 (R(r'<((std|core)::(slice|iter)::)?(Iter|Copied|Cloned) as Iterator>::next$'), m_slice_iter_next),
+                 (R(r'<((std|core)::(slice|iter)::)?(Iter|Copied|Cloned) as Iterator>::(find|any|all|position)$'), m_iter_search),
                  (R(r'<(std::ops::|core::ops::)?Range as IntoIterator>::into_iter$'), m_range_into_iter)] + GLOBAL_MODELS
